@@ -820,7 +820,7 @@ def run(ctx):
     # ------------------------------------------------ generic family
     # second pass ("raw"): the str leaves carry backslashes in every position the cell syntax distinguishes (RAW_POOL /
     # raw_text) and the packed cells are written with esc_lenient — a backslash doubled only where the syntax needs it
-    n_raw = (8000 if thorough else 700) * ctx.scale
+    n_raw = (8000 if thorough else 500) * ctx.scale
     rstats = {"pairs": 0, "flow_pairs": 0, "star_groups": 0, "values_with_backslash": 0, "encodings_with_a_raw_backslash": 0,
               "pairs_raw_vs_unsplit_or_canonical": 0, "backslash_positions": {}, "raw_backslash_in_constructor": {},
               "values_without_two_encodings": 0}
